@@ -5,7 +5,7 @@ from fractions import Fraction as F
 import numpy as np
 from hypothesis import strategies as st
 
-from vlib import gen, kit
+from vlib import gen, kit, refbt
 from vlib.runner import Part, Result, Violation
 from vlib.sut import load
 from checks.c10_long_only import build, csv_cases, equity, fees, price, run_csv
@@ -68,6 +68,7 @@ def run_case(case):
         raise Violation('NaN price was accepted: weights %r prices %r -> %r' % (weights, dh.q, out))
 
     all_cls, any_nt = [], False
+    fee_now = case['fee']
     vectors = [weights] + [dict(w) for w in case.get('more_weights', [])]
     for call_no, weights in enumerate(vectors):
         if call_no and case.get('move_cash'):
@@ -76,11 +77,16 @@ def run_case(case):
             if c_ > 2:
                 b.withdraw_funds_from_portfolio('p', float('%.6g' % (0.4 * c_)))
                 all_cls.append('equity_changed_between_calls')
+        if call_no and case.get('swap_fee') is not None:
+            # the broker's fee schedule changes while the sizer lives on: the sizer must follow the broker's model
+            b.fee_model = kit.fee_model(case['swap_fee'] or None)
+            fee_now = case['swap_fee'] or None
+            all_cls.append('fee_model_replaced')
         E = F(b.get_portfolio_total_equity('p'))
         out = sizer(kit.T_OPEN, dict(weights))
         if set(out.keys()) != set(weights.keys()):
             raise Violation('target keys %s differ from weight keys %s' % (sorted(out), sorted(weights)))
-        f = kit.fee_rate(case['fee'])
+        f = kit.fee_rate(fee_now)
         L = F(lev)
         gross_float = sum(np.abs(w) for w in weights.values())
         gross = sum(abs(F(w)) for w in weights.values())
@@ -113,6 +119,24 @@ def run_case(case):
                                     a, abs(qty), float(p), float(mag), float(E), lev, w, float(gross), float(f)))
             if w < 0 and (mag / p) != int(mag / p):
                 frac_short = True
+        # exact clause: away from float-ambiguous quotients the quantity is the truncation toward zero of
+        # (whole-currency allocation after fees) / price
+        if gross != 0 and not unscaled:
+            try:
+                ref = refbt.size_long_short(E, L, None if f == 0 else list(fee_now), {a: F(w) for a, w in weights.items()},
+                                            {a: F(dh.q[a][1]) for a in weights})
+            except refbt.Ambiguous:
+                ref = None
+                cls.append('quotient_within_1e-12_of_a_whole_number')
+            if ref is not None:
+                for a in weights:
+                    if out[a]['quantity'] != ref[a]:
+                        raise Violation('%s: quantity %d, truncating toward zero (whole-unit allocation after fees) / price '
+                                        'gives %d (E=%r L=%r w=%r/%r f=%r price=%r)' % (
+                                            a, out[a]['quantity'], ref[a], float(E), lev, weights[a], float(gross), float(f),
+                                            dh.q[a][1]))
+                if case.get('exact_multiple'):
+                    cls.append('allocation_is_exact_multiple_of_price')
         bound = L * E * (1 + f)
         if gross != 0 and total > bound * (1 + REL):
             raise Violation('gross target %r exceeds L*E*(1+f) = %r' % (float(total), float(bound)))
@@ -202,7 +226,17 @@ def cases(draw):
     elif inv == 'nan_price':
         case['nan_asset'] = draw(st.sampled_from(assets))
         case.pop('hold', None)
+    if inv is None and draw(st.sampled_from([False] * 9 + [True])):
+        # the whole allocation is an exact multiple of the price: the quotient is a whole number with nothing to truncate
+        a = assets[0]
+        pz = draw(st.sampled_from([3.0, 7.0, 11.0, 13.0, 49.0, 97.0, 1001.0, 0.5, 0.25]))
+        case.update({'weights': {a: draw(st.sampled_from([1.0, -1.0, -0.5, 3.0]))}, 'prices': {a: pz},
+                     'equity': pz * draw(st.integers(1, 200000)), 'leverage': 1.0, 'fee': None, 'exact_multiple': True})
+        case.pop('hold', None)
+        case.pop('more_weights', None)
+        case.pop('hold_price', None)
     case['move_cash'] = draw(st.booleans())
+    case['swap_fee'] = draw(st.sampled_from([None, None, [0.01, 0.005], [0.0, 0.0]]))
     if inv:
         case['invalid'] = inv
         case.pop('more_weights', None)
